@@ -56,7 +56,9 @@ type RespCase struct {
 var (
 	statuses   = []int{200, 200, 200, 201, 202, 203, 206, 226, 299, 300, 301, 302, 303, 307, 308, 399, 400, 401, 403, 404, 409, 410, 418, 429, 451, 499, 500, 501, 502, 503, 504, 599}
 	singletons = []string{"Content-Type", "Location", "ETag", "Last-Modified", "Server", "Content-Language", "Content-Encoding",
-		"Content-Disposition", "Accept-Ranges", "Age", "Expires", "Retry-After", "X-Frame-Options", "Content-Security-Policy", "Date"}
+		"Content-Disposition", "Accept-Ranges", "Age", "Expires", "Retry-After", "X-Frame-Options", "Content-Security-Policy", "Date",
+		// end-to-end fields whose names merely resemble hop-by-hop ones
+		"Proxy-Status", "Proxy-Support", "Connection-Id", "Keep-Alive-Info", "Upgrade-Hint", "Trailer-Info", "Te-Custom", "Transfer-Encoding-Hint", "Proxy-Cache-Id"}
 	listFields = []string{"Set-Cookie", "Set-Cookie", "Vary", "Link", "WWW-Authenticate", "Cache-Control", "Warning", "Allow", "Via", "Access-Control-Allow-Headers"}
 	hopFields  = [][2]string{{"Keep-Alive", "timeout=5, max=100"}, {"Proxy-Authenticate", "Basic realm=x"}, {"Upgrade", "foo/2"}, {"Connection", "keep-alive"}, {"TE", "trailers"}}
 	trailerNms = []string{"X-Trailer-A", "X-Trailer-B", "x-trailer-c", "Grpc-Status", "Grpc-Message", "Server-Timing", "X-Checksum", "Digest"}
